@@ -7,7 +7,9 @@
    policy says - this is tied to the binary by Gen/Statics.v (every object in a writable section,
    regenerated from the object files on every run) joined with the committed classification
    props/C13_statics.json, and by the ThreadSanitizer run of harness/threads.c.
-   Theorems named _refuted state that the property FAILS for the faithful model of a code site. *)
+   The C13_regression_* theorems are about the models of code sites as they were BEFORE the fix
+   commits in /repo (statics since removed); they remain true statements about those models and say
+   what a re-introduction of such a static means.  Nothing in this file is _refuted any more. *)
 From Coq Require Import List ZArith NArith Bool String.
 From LA Require Import Gen.Statics State.ThreadsDefs State.ThreadsProofs.
 Import ListNotations.
@@ -85,111 +87,146 @@ Theorem C13_every_static_classified : forallb is_classified statics_classified =
 Proof. vm_compute. reflexivity. Qed.
 Print Assumptions C13_every_static_classified.
 
-(* 2. every static of the table that is NOT synchronised is one for which a racing schedule of the
-      model of its code site is exhibited below (so the check reports it as C13:<symbol> rather than
-      silently accepting it).  statics_ok statics_classified itself is FALSE on the pinned tree: *)
-Eval vm_compute in (unsynchronised_in statics_classified).
+(* 2. THE obligation statics_ok on the table of this build: every writable static is locked,
+      initialised once before use, or a documented exception. *)
+Eval vm_compute in (map (fun e => (ce_obj e, ce_sym e, ce_class e)) statics_classified).
+Theorem C13_statics_ok : statics_ok statics_classified = true.
+Proof. vm_compute. reflexivity. Qed.
+Print Assumptions C13_statics_ok.
+
+(* 3. (implied by 2 while it holds; says WHICH model applies when it does not) every static of the
+      table that is not synchronised is one whose code site is modelled below with a racing schedule *)
 Theorem C13_unsynchronised_statics_have_witness :
   forallb (fun e => synchronised e || has_witness e) statics_classified = true.
 Proof. vm_compute. reflexivity. Qed.
 Print Assumptions C13_unsynchronised_statics_have_witness.
 
-Theorem C13_witnessed_all_refuted :
+(* 4. the models of the code sites as they are NOW (tar counters in struct tar, constant CRC/base64
+      tables, automatic lst/st, archive_version_details with mutex-protected guard and a string that
+      is initialised once) obey the access policy induced by the table of this build ... *)
+Theorem C13_fixed_sites_obey_policy : policy_okb (policy_of_table statics_classified) prog_fixed = true.
+Proof. vm_compute. reflexivity. Qed.
+Print Assumptions C13_fixed_sites_obey_policy.
+
+(* ... hence every interleaving of three such threads gives each its sequential results, race-free.
+   _partial: about the model; that the C code is the model is what TSan + the table check. *)
+Theorem C13_fixed_sites_equiv_partial :
+  (forall tr, interleaving prog_fixed tr ->
+     forall s t l, exec_trace tr s (Private t l) = exec_trace (seq_trace prog_fixed) s (Private t l)) /\
+  (forall sched n, ~ race_after prog_fixed sched n).
+Proof.
+  exact (table_equiv statics_classified prog_fixed C13_statics_ok
+           (policy_okb_ok _ _ C13_fixed_sites_obey_policy)).
+Qed.
+Print Assumptions C13_fixed_sites_equiv_partial.
+
+(* ------------------------------------------------------------------ what an unsynchronised static means
+   for ANY table: an entry that is not synchronised and whose code site is modelled here breaks the
+   obligation and has a racing schedule in the model of that site *)
+Theorem C13_table_with_witnessed_static_races : forall tbl e,
+  In e tbl -> synchronised e = false -> has_witness e = true ->
+  statics_ok tbl = false /\ exists p s0 sched, race_witness p s0 sched (ce_name e).
+Proof. exact table_with_witnessed_static_races. Qed.
+Print Assumptions C13_table_with_witnessed_static_races.
+
+Theorem C13_regression_witnessed_all :
   Forall (fun n => exists p s0 sched, race_witness p s0 sched n) witnessed.
 Proof. exact witnessed_all. Qed.
-Print Assumptions C13_witnessed_all_refuted.
+Print Assumptions C13_regression_witnessed_all.
 
-(* ------------------------------------------------------------------ refutations, one per code site
+(* ------------------------------------------------------------------ regression witnesses, one per former
+   code site (models of the code BEFORE the fix commits; the statics no longer exist in /repo):
    exists a 2-thread schedule, executable from the initial store with every branch condition of the
    modelled path true, after which both threads are about to access the static, one of them writing,
    with no common lock. *)
-Theorem C13_race_default_inode_refuted : exists sched, race_witness prog_tar zero_store sched S_default_inode.
+Theorem C13_regression_race_default_inode : exists sched, race_witness prog_tar zero_store sched S_default_inode.
 Proof. exact race_default_inode. Qed.
-Print Assumptions C13_race_default_inode_refuted.
+Print Assumptions C13_regression_race_default_inode.
 
-Theorem C13_race_default_dev_refuted : exists sched, race_witness prog_tar_wrap
+Theorem C13_regression_race_default_dev : exists sched, race_witness prog_tar_wrap
   (fun l => match l with Shared n => if String.eqb n S_default_inode then 65534%Z else 0%Z | _ => 0%Z end)
   sched S_default_dev.
 Proof. exact race_default_dev. Qed.
-Print Assumptions C13_race_default_dev_refuted.
+Print Assumptions C13_regression_race_default_dev.
 
-Theorem C13_race_decode_table_refuted : exists sched, race_witness prog_base64 zero_store sched S_decode_B.
+Theorem C13_regression_race_decode_table : exists sched, race_witness prog_base64 zero_store sched S_decode_B.
 Proof. exact race_decode_table. Qed.
-Print Assumptions C13_race_decode_table_refuted.
+Print Assumptions C13_regression_race_decode_table.
 
-Theorem C13_race_crc16init_refuted : exists sched, race_witness prog_lha zero_store sched S_crc16init.
+Theorem C13_regression_race_crc16init : exists sched, race_witness prog_lha zero_store sched S_crc16init.
 Proof. exact race_crc16init. Qed.
-Print Assumptions C13_race_crc16init_refuted.
+Print Assumptions C13_regression_race_crc16init.
 
-Theorem C13_race_crc16tbl_refuted : exists sched, race_witness prog_lha zero_store sched S_crc16tbl.
+Theorem C13_regression_race_crc16tbl : exists sched, race_witness prog_lha zero_store sched S_crc16tbl.
 Proof. exact race_crc16tbl. Qed.
-Print Assumptions C13_race_crc16tbl_refuted.
+Print Assumptions C13_regression_race_crc16tbl.
 
-Theorem C13_race_debug_index_refuted : exists sched, race_witness prog_compress zero_store sched S_debug_index.
+Theorem C13_regression_race_debug_index : exists sched, race_witness prog_compress zero_store sched S_debug_index.
 Proof. exact race_debug_index. Qed.
-Print Assumptions C13_race_debug_index_refuted.
+Print Assumptions C13_regression_race_debug_index.
 
-Theorem C13_race_lst_refuted : exists sched, race_witness prog_disk disk_store sched S_lst.
+Theorem C13_regression_race_lst : exists sched, race_witness prog_disk disk_store sched S_lst.
 Proof. exact race_lst. Qed.
-Print Assumptions C13_race_lst_refuted.
+Print Assumptions C13_regression_race_lst.
 
-Theorem C13_race_can_dupfd_cloexec_refuted : exists sched, race_witness prog_dup dup_store sched S_can_dupfd.
+Theorem C13_regression_race_can_dupfd_cloexec : exists sched, race_witness prog_dup dup_store sched S_can_dupfd.
 Proof. exact race_can_dupfd_cloexec. Qed.
-Print Assumptions C13_race_can_dupfd_cloexec_refuted.
+Print Assumptions C13_regression_race_can_dupfd_cloexec.
 
-Theorem C13_race_dos_initialised_refuted : exists sched, race_witness prog_dos zero_store sched S_dos_init.
+Theorem C13_regression_race_dos_initialised : exists sched, race_witness prog_dos zero_store sched S_dos_init.
 Proof. exact race_dos_initialised. Qed.
-Print Assumptions C13_race_dos_initialised_refuted.
+Print Assumptions C13_regression_race_dos_initialised.
 
-Theorem C13_race_dos_max_unix_refuted : exists sched, race_witness prog_dos zero_store sched S_dos_max.
+Theorem C13_regression_race_dos_max_unix : exists sched, race_witness prog_dos zero_store sched S_dos_max.
 Proof. exact race_dos_max_unix. Qed.
-Print Assumptions C13_race_dos_max_unix_refuted.
+Print Assumptions C13_regression_race_dos_max_unix.
 
-Theorem C13_race_dos_min_unix_refuted : exists sched, race_witness prog_dos zero_store sched S_dos_min.
+Theorem C13_regression_race_dos_min_unix : exists sched, race_witness prog_dos zero_store sched S_dos_min.
 Proof. exact race_dos_min_unix. Qed.
-Print Assumptions C13_race_dos_min_unix_refuted.
+Print Assumptions C13_regression_race_dos_min_unix.
 
-Theorem C13_race_str_refuted : exists sched, race_witness prog_version zero_store sched S_str.
+Theorem C13_regression_race_str : exists sched, race_witness prog_version zero_store sched S_str.
 Proof. exact race_str. Qed.
-Print Assumptions C13_race_str_refuted.
+Print Assumptions C13_regression_race_str.
 
 (* a race_witness is in particular a race in the sense excluded by C13_policy_race_free_partial *)
 Theorem C13_race_witness_is_race : forall p s0 sched n, race_witness p s0 sched n -> race_after p sched n.
 Proof. exact race_witness_race_after. Qed.
 Print Assumptions C13_race_witness_is_race.
 
-(* ------------------------------------------------------------------ observable differences
+(* ------------------------------------------------------------------ observable differences (same former
+   code sites; this is what the harness digests would show again)
    differs p s0 l: an interleaving of p - every branch condition of the modelled paths true in it and
    in the sequential run - after which location l differs from the sequential run. *)
 
 (* default_inode: two handles reading two tar headers each; thread 0's second entry gets ino 3
    instead of 2 ... *)
-Theorem C13_default_inode_ino_refuted : differs prog_tar zero_store (Private 0 "ino2").
+Theorem C13_regression_default_inode_ino : differs prog_tar zero_store (Private 0 "ino2").
 Proof. exact default_inode_ino_differs. Qed.
-Print Assumptions C13_default_inode_ino_refuted.
+Print Assumptions C13_regression_default_inode_ino.
 
 (* ... and the order-independent observable the harness digests (ino of the 2nd entry minus ino of
    the 1st, which is 1 in EVERY sequential use of whole handles) is 2 *)
-Theorem C13_default_inode_delta_refuted : differs prog_tar zero_store (Private 0 "delta").
+Theorem C13_regression_default_inode_delta : differs prog_tar zero_store (Private 0 "delta").
 Proof. exact default_inode_delta_differs. Qed.
-Print Assumptions C13_default_inode_delta_refuted.
+Print Assumptions C13_regression_default_inode_delta.
 
 (* torn ++default_inode: entries of two different handles get the SAME synthesised inode *)
-Theorem C13_default_inode_duplicate_refuted : exists tr,
+Theorem C13_regression_default_inode_duplicate : exists tr,
   interleaving prog_tar tr /\ guards_ok tr zero_store = true /\
   exec_trace tr zero_store (Private 0 "ino1") = exec_trace tr zero_store (Private 1 "ino1").
 Proof. exact default_inode_duplicate. Qed.
-Print Assumptions C13_default_inode_duplicate_refuted.
+Print Assumptions C13_regression_default_inode_duplicate.
 
 (* crc16init is set before crc16tbl is filled: a second LHA reader computes its CRC from a zero table *)
-Theorem C13_crc16_result_refuted : differs prog_lha zero_store (Private 1 "crc").
+Theorem C13_regression_crc16_result : differs prog_lha zero_store (Private 1 "crc").
 Proof. exact crc16_result_differs. Qed.
-Print Assumptions C13_crc16_result_refuted.
+Print Assumptions C13_regression_crc16_result.
 
 (* static lst: a disk reader dereferences the other handle's stat pointer *)
-Theorem C13_lst_pointer_refuted : differs prog_disk disk_store (Private 0 "lst_used").
+Theorem C13_regression_lst_pointer : differs prog_disk disk_store (Private 0 "lst_used").
 Proof. exact lst_pointer_differs. Qed.
-Print Assumptions C13_lst_pointer_refuted.
+Print Assumptions C13_regression_lst_pointer.
 
 (* ------------------------------------------------------------------ non-vacuity
    a concrete 3-thread program that reads a constant table and updates a lock-protected shared counter
